@@ -50,6 +50,19 @@ def unproven(rule, key, where="", msg="", detail=None):
     return Inst(rule, key, "unproven", where, msg, detail)
 
 
+EVID = [os.path.join(VERIF, "evidence")]
+
+
+def evidence_dir(repo, facts_override=None):
+    """Evidence of /repo itself goes to /verif/evidence; analyses of scratch trees (seeded changes, mutants, refactorings
+    evaluated with --repo/--facts) must not overwrite it."""
+    if os.path.realpath(repo) == "/repo" and not facts_override:
+        EVID[0] = os.path.join(VERIF, "evidence")
+    else:
+        EVID[0] = os.path.join(repo, ".verif-evidence")
+    return EVID[0]
+
+
 def extract(config, repo="/repo"):
     os.makedirs(WORK, exist_ok=True)
     out = os.path.join(WORK, "facts-%s-%d.json" % (config, os.getpid()))
@@ -111,7 +124,10 @@ def run_property(pid, module, tier="quick", replay=None, repo="/repo", facts_ove
             continue
         stats[cfg] = {"bodies": len(facts.bodies),
                       "call_sites": sum(1 for b in facts.bodies for _ in b.calls(cleanup=True)),
-                      "renamed_functions_resolved_by_fingerprint": dict(getattr(facts, "renames", {}) or {})}
+                      "renamed_functions_resolved_by_fingerprint": dict(getattr(facts, "renames", {}) or {}),
+                      "new_helper_functions_inlined_into_callers": dict(getattr(facts, "inlined", {}) or {})}
+        for h_, cs_ in sorted((getattr(facts, "inlined", {}) or {}).items()):
+            print("note[%s]: new helper function %s analysed inlined into %s" % (cfg, h_, ", ".join(cs_)))
         for new_, old_ in sorted((getattr(facts, "renames", {}) or {}).items()):
             print("note[%s]: function %s recognised as the renamed/moved %s (fingerprint match); rules anchored on the old path apply to it" % (cfg, new_, old_))
         ctx = Ctx(facts, cfg, tier, repo)
@@ -163,7 +179,7 @@ def run_property(pid, module, tier="quick", replay=None, repo="/repo", facts_ove
             known_hit.append(i)
         else:
             new_viol.append(i)
-    vdir = os.path.join(VERIF, "evidence", "violations")
+    vdir = os.path.join(evidence_dir(repo, facts_override), "violations")
     rc = 0
     for i in known_hit:
         print("KNOWN-FINDING: property=%s %s %s (%s)" % (pid, i.full_key, known_keys[i.full_key].get("what", i.msg), i.where))
@@ -194,7 +210,7 @@ def run_property(pid, module, tier="quick", replay=None, repo="/repo", facts_ove
 
 
 def write_evidence(pid, module, tier, seed, insts, per_rule, stats, wall, nviol, known_hit):
-    os.makedirs(os.path.join(VERIF, "evidence"), exist_ok=True)
+    os.makedirs(EVID[0], exist_ok=True)
     nh = sum(1 for i in insts if i.verdict == "holds")
     samples = []
     by_rule = {}
@@ -235,7 +251,7 @@ def write_evidence(pid, module, tier, seed, insts, per_rule, stats, wall, nviol,
         "wall_s": round(wall, 2),
         "violations": nviol,
     }
-    with open(os.path.join(VERIF, "evidence", "%s.json" % pid), "w") as fh:
+    with open(os.path.join(EVID[0], "%s.json" % pid), "w") as fh:
         json.dump(ev, fh, indent=1)
 
 
